@@ -61,7 +61,7 @@ func acceptUnits(c *checkCtx, check string) []*interp.Unit {
 	gen := evalList(c, "vFamilyGenerated")
 	var profs []profile
 	if c.quick() {
-		specs = append(specs, everyNth(gen, 16, c.seed)...)
+		specs = append(specs, everyNth(gen, 32, c.seed)...)
 		profs = []profile{
 			{"raw K<=2 L<=3", map[string]interface{}{"profile": "raw", "K": 2, "L": 3}},
 			{"tmpl K<=2 Lp<=1", map[string]interface{}{"profile": "tmpl", "K": 2, "Lp": 1}},
@@ -94,7 +94,7 @@ func init() {
 		Units: func(c *checkCtx) []*interp.Unit { return acceptUnits(c, "C01") },
 		Bounds: func(c *checkCtx) map[string]interface{} {
 			if c.quick() {
-				return map[string]interface{}{"specs": "curated + END family + every 16th generated spec (rotated by VERIF_SEED)", "raw": "K<=2 tokens of L<=3 arbitrary bytes", "template": "K<=2 items over 20 documented/malformed shapes, payload <=1 byte"}
+				return map[string]interface{}{"specs": "curated + END family + every 32nd generated spec (rotated by VERIF_SEED)", "raw": "K<=2 tokens of L<=3 arbitrary bytes", "template": "K<=2 items over 20 documented/malformed shapes, payload <=1 byte"}
 			}
 			return map[string]interface{}{"specs": "curated + END family + all generated specs", "raw": "K<=2 tokens of L<=4 arbitrary bytes", "template": "K<=3 items over 20 documented/malformed shapes, payload <=1 byte"}
 		},
@@ -236,7 +236,7 @@ func init() {
 			all := withOption(endFree(append(evalList(c, "vFamilyCurated"), evalList(c, "vFamilyGenerated")...)))
 			if c.quick() {
 				us := specUnits("H_swap", everyNth(all, 24, c.seed), []profile{{"n<=2 Lp<=1", map[string]interface{}{"n": 2, "Lp": 1}}}, 1)
-				return append(us, specUnits("H_swap", everyNth(all, 192, c.seed), []profile{{"n<=3 Lp<=1", map[string]interface{}{"n": 3, "Lp": 1}}}, 1)...)
+				return append(us, specUnits("H_swap", everyNth(all, 480, c.seed), []profile{{"n<=3 Lp<=1", map[string]interface{}{"n": 3, "Lp": 1}}}, 1)...)
 			}
 			return specUnits("H_swap", everyNth(all, 8, c.seed), []profile{{"n<=3 Lp<=1", map[string]interface{}{"n": 3, "Lp": 1}}}, 1)
 		},
@@ -252,7 +252,7 @@ func init() {
 			specs := append(evalList(c, "vFamilyEnv"), evalList(c, "vFamilyEnvEnd")...)
 			cur := append(evalList(c, "vFamilyCurated"), evalList(c, "vFamilyEnd")...)
 			if c.quick() {
-				return specUnits("H_envmono", append(everyNth(specs, 2, c.seed), everyNth(cur, 16, c.seed)...), []profile{{"tmpl K<=2 Lp<=1", map[string]interface{}{"profile": "tmpl", "K": 2, "Lp": 1}}}, 1)
+				return specUnits("H_envmono", append(everyNth(specs, 3, c.seed), everyNth(cur, 30, c.seed)...), []profile{{"tmpl K<=2 Lp<=1", map[string]interface{}{"profile": "tmpl", "K": 2, "Lp": 1}}}, 1)
 			}
 			specs = append(specs, cur...)
 			return specUnits("H_envmono", specs, []profile{{"tmpl K<=2 Lp<=1", map[string]interface{}{"profile": "tmpl", "K": 2, "Lp": 1}}, {"raw K<=2 L<=3", map[string]interface{}{"profile": "raw", "K": 2, "L": 3}}}, 1)
